@@ -2861,3 +2861,156 @@ func init() {
 			return out
 		}})
 }
+
+// ---- LOOPSHADOW
+//
+// An inner loop that declares its counter with the name of the counter of a loop that encloses it hides the outer
+// counter for the whole inner body. When the inner body was written with both in mind (`coeffs[j*gap+w]` retyped as
+// `coeffs[j*gap-j]` inside `for j := 1; j < gap; j++` nested in `for j := n-1; ...`) the expression silently uses the
+// inner counter twice: it compiles, and writes to the wrong places.
+//
+// Rule: no for/range statement declares (:=) a variable with the same name as a variable declared by the header of an
+// enclosing for/range statement of the same function when both loops index the same array with that name (the outer
+// body outside the inner loop, and the inner body): harmless re-use of a counter name for unrelated arrays is left alone.
+
+func scanLoopShadow(c *core.Ctx) []ob {
+	var out []ob
+	n := 0
+	c.FuncDecls(func(pk *packages.Package, file *ast.File, fd *ast.FuncDecl) {
+		if fd.Body == nil || fileIsTestSupport(c.Program, fd.Pos()) || inExamples(pk) {
+			return
+		}
+		info := pk.TypesInfo
+		fkey := core.FuncKey(pk, fd)
+		headerVars := func(x ast.Node) []*ast.Ident {
+			var ids []*ast.Ident
+			switch v := x.(type) {
+			case *ast.ForStmt:
+				if as, ok := v.Init.(*ast.AssignStmt); ok && as.Tok == token.DEFINE {
+					for _, l := range as.Lhs {
+						if id, ok := l.(*ast.Ident); ok && id.Name != "_" {
+							ids = append(ids, id)
+						}
+					}
+				}
+			case *ast.RangeStmt:
+				if v.Tok == token.DEFINE {
+					for _, e := range []ast.Expr{v.Key, v.Value} {
+						if id, ok := e.(*ast.Ident); ok && id != nil && id.Name != "_" {
+							ids = append(ids, id)
+						}
+					}
+				}
+			}
+			return ids
+		}
+		outerLoop := map[string]ast.Node{}
+		var walk func(x ast.Node, outer map[string]token.Pos)
+		walk = func(x ast.Node, outer map[string]token.Pos) {
+			ast.Inspect(x, func(y ast.Node) bool {
+				if y == x {
+					return true
+				}
+				switch y.(type) {
+				case *ast.FuncLit:
+					return false
+				case *ast.ForStmt, *ast.RangeStmt:
+					n++
+					ids := headerVars(y)
+					inner := map[string]token.Pos{}
+					for k, v := range outer {
+						inner[k] = v
+					}
+					for _, id := range ids {
+						if pos, shadows := outer[id.Name]; shadows && sameArrayBothScopes(outerLoop[id.Name], y, id.Name) {
+							// only when the outer variable is still used inside the inner loop's scope would be a proof of
+							// intent; the shadowing itself is the finding
+							key := fmt.Sprintf("LOOPSHADOW:%s#%s", fkey, id.Name)
+							out = append(out, withProps(violOb("LOOPSHADOW", key, c.Rel(id.Pos()), fmt.Sprintf("%s declares the loop variable %s inside a loop that already declares %s at %s: the inner body cannot refer to the outer counter, and an index written with both in mind uses the inner one twice", fkey, id.Name, id.Name, c.Rel(pos))), bufProps(fkey)...))
+						}
+						if _, ok := info.Defs[id]; ok {
+							inner[id.Name] = id.Pos()
+							outerLoop[id.Name] = y
+						}
+					}
+					walk(y, inner)
+					return false
+				}
+				return true
+			})
+		}
+		walk(fd.Body, map[string]token.Pos{})
+	})
+	c.Stats["loopshadow_loops"] = n
+	if !c.IsFixture {
+		out = append(out, okOb("LOOPSHADOW", "LOOPSHADOW:summary", "", fmt.Sprintf("%d loops examined", n), true))
+	}
+	return out
+}
+
+func init() {
+	core.Register(&core.Rule{Name: "LOOPSHADOW", Wide: true, Props: []string{"C01", "C02", "C03", "C04", "C05", "C06", "C07", "C08", "C09", "C10", "C11", "C12", "C13", "C14", "C15", "C16", "C17", "C18", "C19", "C20"},
+		Doc: "no for/range statement declares a variable with the name of a variable declared by the header of an enclosing loop of the same function",
+		Run: func(c *core.Ctx) []ob {
+			out := scanLoopShadow(c)
+			out = append(out, control(c, "LOOPSHADOW", scanLoopShadow, "lvfixture.spread#j")...)
+			out = append(out, core.Floor("LOOPSHADOW", nil, "loops", c.Stats["loopshadow_loops"], 1000)...)
+			return out
+		}})
+}
+
+// sameArrayBothScopes: some array is indexed with an expression mentioning `name` both in the body of the outer loop
+// (outside the inner loop) and inside the inner loop.
+func sameArrayBothScopes(outer, inner ast.Node, name string) bool {
+	if outer == nil {
+		return false
+	}
+	bases := func(root ast.Node, skip ast.Node) map[string]bool {
+		res := map[string]bool{}
+		ast.Inspect(root, func(x ast.Node) bool {
+			if x == skip {
+				return false
+			}
+			ie, ok := x.(*ast.IndexExpr)
+			if !ok {
+				return true
+			}
+			uses := false
+			ast.Inspect(ie.Index, func(y ast.Node) bool {
+				if id, ok := y.(*ast.Ident); ok && id.Name == name {
+					uses = true
+				}
+				return true
+			})
+			if uses {
+				res[exprString(ie.X)] = true
+			}
+			return true
+		})
+		return res
+	}
+	var outerBody ast.Node
+	switch v := outer.(type) {
+	case *ast.ForStmt:
+		outerBody = v.Body
+	case *ast.RangeStmt:
+		outerBody = v.Body
+	}
+	var innerBody ast.Node
+	switch v := inner.(type) {
+	case *ast.ForStmt:
+		innerBody = v.Body
+	case *ast.RangeStmt:
+		innerBody = v.Body
+	}
+	if outerBody == nil || innerBody == nil {
+		return false
+	}
+	a, b := bases(outerBody, inner), bases(innerBody, nil)
+	for k := range a {
+		if b[k] {
+			return true
+		}
+	}
+	return false
+}
